@@ -8,14 +8,15 @@ one() {
   rm -rf $wt $out; git -C /repo worktree add -q --detach $wt HEAD 2>/dev/null || { echo "$pf: worktree failed"; return; }
   if ! git -C $wt apply $pf 2>/dev/null; then echo "$pf: PATCH DOES NOT APPLY"; git -C /repo worktree remove --force $wt; return; fi
   hits=""
-  PL="$PROPS"; [ -n "${TARGETED:-}" ] && PL=$(python3 $HERE/tools/props_for.py $pf)
+  PL="$PROPS"; [ -n "${TARGETED:-}" ] && PL=$(for q in $(python3 $HERE/tools/props_for.py $pf); do case " $PROPS " in *" $q "*) echo $q;; esac; done | tr '\n' ' ')
   for q in $PL; do
     o=$(VERIF_OUT=$out python3-vt -m hv.check $q --repo $wt 2>&1); rc=$?
     if [ $rc = 1 ]; then hits="$hits $q(FALSE-ALARM:$(echo "$o" | grep -m1 '  rule' | cut -c1-160))"; elif [ $rc = 2 ]; then hits="$hits $q(ERR:$(echo "$o" | grep -m1 ANALYSIS | cut -c1-200))"; fi
   done
   git -C /repo worktree remove --force $wt; rm -rf $out
   echo "$pf: ${hits:- silent}"
+  [ -n "${PROGRESS:-}" ] && echo "$pf: ${hits:- silent}" >> $PROGRESS
 }
-export -f one; export PROPS TARGETED
+export -f one; export PROPS TARGETED PROGRESS
 ls ${@:-$HERE/refactors/*/patch.diff} | xargs -P 12 -I{} bash -c 'one {}' | sort
 git -C /repo worktree prune
